@@ -119,7 +119,8 @@ def rand_checksum_entries(r):
     """list of (algorithm lower-case, hex lower-case) with distinct algorithms"""
     n = 1 + r.below(3)
     algs = []
-    pool = ["sha1", "sha256", "md5", "sha512", "b", "a1", "x-y", "é", "a:b", "a:b c", "x:y&z", "s:h+1", " md5", "sha", "sha2", "sha2-256"]
+    pool = ["sha1", "sha256", "md5", "sha512", "b", "a1", "x-y", "é", "a:b", "a:b c", "x:y&z", "s:h+1", " md5", "sha", "sha2", "sha2-256", "sha-256", "sha_256",
+            "sha512-256", "sha3", "sha3-256", "blake2b", "blake2b-256", "md"]
     for _ in range(n):
         a = r.pick(pool)
         if a not in algs:
@@ -165,7 +166,12 @@ SPEC_DEFAULTS = {
     "golang": [("repository_url", "https://proxy.golang.org"), ("type", "module"), ("vcs_url", "git+https://github.com/a/b")],
 }
 GENERIC_DEFAULTS = [("arch", "noarch"), ("arch", "any"), ("os", "linux"), ("type", "jar"), ("platform", "ruby"), ("distro", "default"),
-                    ("repository_url", "https://example.org"), ("epoch", "0"), ("ext", "tar.gz")]
+                    ("repository_url", "https://example.org"), ("epoch", "0"), ("ext", "tar.gz"),
+                    # values with a tempting normal form of their own (URLs, architecture aliases, booleans)
+                    ("repository_url", "HTTPS://Example.ORG:443/a/../b/?x=1#f"), ("repository_url", "https://example.org/"),
+                    ("vcs_url", "git+ssh://git@GitHub.com/A/B.git@ABCDEF"), ("download_url", "http://[::1]:8080/%7Euser/a%20b"),
+                    ("arch", "amd64"), ("arch", "x86_64"), ("arch", "AMD64"), ("os", "Windows"), ("prerelease", "true"), ("prerelease", "TRUE"),
+                    ("file_name", "a/b\\c.TAR.GZ"), ("tag", "v1.0.0"), ("commit", "ABCDEF0123")]
 DEFAULT_VERSIONS = ["latest", "0", "0.0.0", "*", "HEAD", "main", "master", "v0", "unknown", "none", "null"]
 # versions as the ecosystems write them (each has a "normal form" of its own that a PURL must NOT apply)
 ECO_VERSIONS = ["1.0.0.0", "6.0.1304.0", "13.0.3.00", "1.2.3.000-pre", "1.01.1", "01.02.03", "1.0.0.0.0", "1.0", "1", "v1.2.3", "V1.2.3", "1.2.3-beta.1", "1.2.3-BETA",
